@@ -372,6 +372,27 @@ def stream_sites(ctx):
         ctx.violation('obligation', dict(what='harness table SITES and Coq site_table differ (the enumerated list equals '
                                               'SITES but not site_table)', stream='sites'), nofail=True)
         ok = False
+    # configuration the table depends on: which names bypass the parser, and the default of the flag
+    auto = current_auto_import()
+    ctx.count('sites', ('auto_import_modules', tuple(auto)), nontrivial=True)
+    if auto != AUTO_DEFAULT:
+        ok = False
+        ctx.violation('obligation', dict(
+            what='route table broken: settings.auto_import_modules is %r, the model documents %r (more names are routed to a '
+                 'real import); the sentinel trees of this run carry modules of those names' % (auto, AUTO_DEFAULT),
+            stream='sites'), nofail=True)
+    try:
+        import inspect
+        from jedi.api.project import Project
+        dflt = inspect.signature(Project.__init__).parameters['load_unsafe_extensions'].default
+    except Exception as e:
+        dflt = repr(e)
+    ctx.count('sites', ('load_unsafe_extensions default', repr(dflt)), nontrivial=True)
+    if dflt is not False:
+        ok = False
+        ctx.violation('obligation', dict(
+            what='route table broken: the default of Project(load_unsafe_extensions=...) is %r, the model (Explicit false / '
+                 'Discovered None) says False' % (dflt,), stream='sites'), nofail=True)
     ctx.sample(dict(stream='sites', n=len(found), first=list(found[0]) if found else None))
     return ok
 
@@ -936,6 +957,17 @@ def _body(stem, rng, extra=''):
     return '\n'.join(lines) + '\n' + extra
 
 
+AUTO_DEFAULT = ['gi']      # settings.auto_import_modules as modelled (ex_cfg / the documented default)
+
+
+def current_auto_import():
+    try:
+        from jedi import settings
+        return [str(x) for x in settings.auto_import_modules]
+    except Exception:
+        return list(AUTO_DEFAULT)
+
+
 def gen_tree(rng, sdir, tag, variant):
     """Returns dict(files={rel: (text, mode)}, sentinels={name: rel}, modules=[...]).  Every Python file
     (and every file Python might execute: .pth, shell wrappers) writes its own sentinel when run."""
@@ -961,6 +993,10 @@ def gen_tree(rng, sdir, tag, variant):
         chosen.append('gi.py')
     if gi_kind in ('package', 'both'):
         chosen += ['gi/__init__.py', 'gi/repository.py', 'gi/overrides/__init__.py']
+    for extra_auto in [n for n in current_auto_import() if n != 'gi' and n.isidentifier()]:
+        if extra_auto + '.py' not in chosen:
+            chosen.append(extra_auto + '.py')
+        chosen.append('lib/%s.py' % extra_auto)
     for rel in chosen:
         extra = ''
         if rel == 'manage.py':
@@ -1090,6 +1126,8 @@ def gen_buffer(rng, path):
     if rng.random() < 0.35:
         lines += rng.choice(PATH_LINES).split('\n')
     lines += rng.sample(IMPORT_LINES, rng.randint(3, 8))
+    for extra_auto in [n for n in current_auto_import() if n != 'gi' and n.isidentifier()]:
+        lines += ['import %s' % extra_auto, '%s.' % extra_auto]
     if path and os.path.basename(path).startswith('test_') or rng.random() < 0.15:
         lines += ['import pytest', '@pytest.fixture', 'def fixt_here(fixt_root):', '    return fixt_root',
                   'def test_one(fixt_root, fixt_local, fixt_pkg, fixt_gen, fixt_here, monkeypatch, fixt_', '):',
@@ -1383,9 +1421,12 @@ def _sentinel_task(case, unsafe=False):
     def finding(cls, **data):
         out['findings'].append(dict(cls=cls, **data))
 
+    reported_modules = set()
+
     def check_helper_modules(snap, where):
         for name, f in snap['modules']:
-            if f and (_under(f, root) or _under(f, tmp_root)):
+            if f and (_under(f, root) or _under(f, tmp_root)) and (name, f) not in reported_modules:
+                reported_modules.add((name, f))
                 finding('helper-module-from-project', module=name, file=f.replace(root, '$R'), where=where)
 
     seen_fired = set()
@@ -1481,6 +1522,7 @@ def _sentinel_task(case, unsafe=False):
                                     out['helper_new'].add(name)
                                     bases = [p for p in h0['sys_path'] if p]
                                     if f and (_under(f, root) or _under(f, tmp_root) or not any(_under(f, b) for b in bases)):
+                                        reported_modules.add((name, f))
                                         finding('helper-module-from-project', module=name, file=f.replace(root, '$R'), where=where)
                         elif h0 and h1:
                             finding('helper-restarted', where=where)
